@@ -233,6 +233,10 @@ def stepN (fo : FloatOps) (fuel : Nat) (s : StN) (op : Json) : E (StN × Json) :
     let h ← s.get r
     let d ← getDType (← field op "dtype")
     refusable do pure (s.set r (← h.setDType d), Json.str "ok")
+  | "set_meta" | "append_meta" =>
+    -- meta-data edits: the model's histograms carry no meta data (values): nothing changes
+    let _ ← s.get (← reg "h")
+    pure (s, Json.str "ok")
   | "copy" =>
     let h ← s.get (← reg "h")
     pure (s.set (← reg "out") (h.copy (getBoolD op "with_freq" true)), Json.str "ok")
